@@ -154,8 +154,8 @@ def handle (op : String) (args : List String) : Option String :=
       | some h => showExceptUnit showTi (parseTimeEntry h) | none => "bad-arg"
   | "c01.tree.sort", [v, es] => some <| match list? entry? es with
       | some es =>
-        if v = "py" then "ok " ++ showList showEntry (sortedTreeItems es)
-        else if v = "rs" then "ok " ++ showList showEntry (sortedTreeItemsRs es)
+        if v = "py" then showEntries (sortedTreeItemsE es)
+        else if v = "rs" then showEntries (sortedTreeItemsRsE es)
         else if v = "name" then "ok " ++ showList showEntry (sortedTreeItemsNameOrder es)
         else "bad-arg"
       | none => "bad-arg"
